@@ -79,6 +79,17 @@ End Quantities.
 (* summing the binned spectrum over all bins 0..N/2 returns the total of the quantities of the modes inside the Nyquist sphere, each mode
    counted exactly once; the modes outside the sphere are dropped - for every list of stored modes (any D, any channel) *)
 From EXV Require Import Nonlin.Conv Nonlin.MeanFree.
+(* the limits of bin b at bin spacing 1, b -+ 1/2, doubled: the integers whose squares in_bin compares with 4 |k|^2 *)
+Section Limits.
+  Variable F : FieldT.
+  Add Field Ffl : (fth F).
+  Local Open Scope fld_scope.
+  Lemma doubled_lower (b : Z) : (fz 2 : F) * (fz b - fz 1 / fz 2) = fz (2 * b - 1).
+  Proof. rewrite fz_sub, fz_mul. cbn [fz fpos]. field. exact (two_neq0 F). Qed.
+  Lemma doubled_upper (b : Z) : (fz 2 : F) * (fz b + fz 1 / fz 2) = fz (2 * b + 1).
+  Proof. rewrite fz_add, fz_mul. cbn [fz fpos]. field. exact (two_neq0 F). Qed.
+End Limits.
+
 Section Total.
   Variable F : FieldT.
   Add Field Fft : (fth F).
